@@ -416,13 +416,9 @@ func c12sys(sc *sim.Scenario, env *sim.Env) *sim.Violation {
 		st.ProbeIf(len(want) > 0, "onwdm_fired")
 	}
 	if ss != nil {
-		wantLines := len(recs)
-		if refBroke {
-			wantLines++
-		}
-		if ss.Calls != wantLines {
-			return &sim.Violation{Oracle: "logger_call_count", Step: -1, Msg: fmt.Sprintf("Logger.Write was called %d times for %d loop iterations", ss.Calls, wantLines)}
-		}
+		// how many Write calls the logger receives is not part of the property (a buffering
+		// implementation is free to batch lines); only that logger faults change nothing
+		_ = refBroke
 		st.ProbeIf(ss.Failed > 0, "logger_fault_fired")
 	}
 	st.State(regsA.Hash())
